@@ -601,4 +601,192 @@ func main() {
 	for i := 0; i < n; i++ {
 		apiFlow(r, i)
 	}
+	seqFlows(r)
+}
+
+// ---------------------------------------------------------------- sequences of adds on the same pages
+
+// equivalentN: equal up to white space and any number of nested enclosing q ... Q pairs
+// (one pair per on-top add).
+func equivalentN(orig, now []byte) bool {
+	o, n := trimWS(orig), trimWS(now)
+	for {
+		if bytes.Equal(o, n) {
+			return true
+		}
+		if len(n) >= 3 && n[0] == 'q' && n[len(n)-1] == 'Q' && isWS(n[1]) && isWS(n[len(n)-2]) {
+			n = trimWS(n[1 : len(n)-1])
+			continue
+		}
+		return false
+	}
+}
+
+var wmReAll = regexp.MustCompile(`/Artifact <</Subtype /Watermark /Type /Pagination >>BDC q (.*?) cm /(\S+) gs /(\S+) Do Q EMC`)
+
+// seqFlow: AddWatermarks called len(pattern) times on all pages (pattern[i] = onTop of call i), then
+// RemoveWatermarks over all pages, then HasWatermarks.
+func seqFlow(r *vh.Run, spec docSpec, pattern []bool, kindsSeq []string) {
+	in := map[string]any{"doc": spec, "onTop_sequence": pattern, "kinds": kindsSeq}
+	defer recoverTo(r, "seq", in)
+	r.Count(fmt.Sprintf("seq:pattern=%v", pattern))
+	pdf := buildPDF(spec)
+	orig, err := observe(pdf)
+	if err != nil {
+		panic(fmt.Sprintf("generated document unreadable: %v", err))
+	}
+	cur := pdf
+	type blk struct{ onTop bool; mtx, gs, xo []byte }
+	perPage := make([][]blk, len(orig))
+	seen := make([]map[string]bool, len(orig))
+	for i := range seen {
+		seen[i] = map[string]bool{}
+	}
+	for step, onTop := range pattern {
+		wm, err := newWM(r, kindsSeq[step], onTop, genDesc(r, kindsSeq[step]))
+		if err != nil {
+			panic(err)
+		}
+		var out bytes.Buffer
+		if err := api.AddWatermarks(bytes.NewReader(cur), &out, nil, wm, newConf()); err != nil {
+			r.OracleFail("add-error", in, fmt.Sprintf("call %d: %v", step+1, err))
+			return
+		}
+		cur = out.Bytes()
+		obs, err := observe(cur)
+		if err != nil || len(obs) != len(orig) {
+			r.OracleFail("add-output-unreadable", in, fmt.Sprint(err))
+			return
+		}
+		for i, p := range obs {
+			found := false
+			for _, s := range p.Streams {
+				for _, m := range wmReAll.FindAllSubmatch(s, -1) {
+					if key := string(m[2]) + "/" + string(m[3]); !seen[i][key] {
+						seen[i][key] = true
+						perPage[i] = append(perPage[i], blk{onTop, m[1], m[2], m[3]})
+						found = true
+					}
+				}
+			}
+			if !found {
+				r.OracleFail("no-watermark-block-on-selected-page", in, fmt.Sprintf("page %d call %d", i+1, step+1))
+				return
+			}
+		}
+	}
+	obsA, _ := observe(cur)
+	has1, err := hasDoc(r, cur, in)
+	if err != nil || !has1 {
+		r.OracleFail("detect-misses-added-watermark", in, fmt.Sprintf("has=%v err=%v", has1, err))
+	} else {
+		r.OracleOK()
+	}
+	flags1, err := pageFlags(cur)
+	if err != nil {
+		r.OracleFail("detect-page-error", in, err.Error())
+		return
+	}
+	var out bytes.Buffer
+	if err := api.RemoveWatermarks(bytes.NewReader(cur), &out, nil, newConf()); err != nil {
+		r.OracleFail("remove-error", in, err.Error())
+		return
+	}
+	obsR, err := observe(out.Bytes())
+	if err != nil || len(obsR) != len(orig) {
+		r.OracleFail("remove-output-unreadable", in, fmt.Sprint(err))
+		return
+	}
+	has2, err := hasDoc(r, out.Bytes(), in)
+	flags2, err2 := pageFlags(out.Bytes())
+	if err != nil || err2 != nil {
+		r.OracleFail("detect-error", in, fmt.Sprint(err, err2))
+		return
+	}
+	// K per page
+	for i, p := range orig {
+		var seq []string
+		for _, b := range perPage[i] {
+			seq = append(seq, vh.Bool(b.onTop)+":"+hx(b.mtx)+":"+hx(b.gs)+":"+hx(b.xo))
+		}
+		r.Case("pageseq", []string{strings.Join(seq, ";"), encContents(p.Kind, p.Streams)},
+			fmt.Sprintf("add=%s|det=%s|rm=%s|det2=%s", encContents(obsA[i].Kind, obsA[i].Streams), vh.Bool(flags1[i] == '1'),
+				encContents(obsR[i].Kind, obsR[i].Streams), vh.Bool(flags2[i] == '1')))
+	}
+	// O
+	left := false
+	for i, p := range orig {
+		in3 := map[string]any{"doc": spec, "onTop_sequence": pattern, "kinds": kindsSeq, "page": i + 1}
+		ss := obsR[i].Streams
+		bad := -1
+		for j, s := range ss {
+			if bytes.Contains(s, []byte(markerStr)) {
+				bad = j
+				break
+			}
+		}
+		if bad >= 0 {
+			left = true
+			if bad > 0 && bad < len(ss)-1 {
+				// the artifact sits in a stream that is neither the first nor the last of the array:
+				// an earlier stamp stream pushed inwards by a later AddWatermarks call
+				r.OracleFail("stamp-left-behind-after-later-add-on-multistream-page", in3,
+					fmt.Sprintf("stream %d of %d still holds %q; HasWatermarks after removal = %v, findPageWatermarks = %v", bad+1, len(ss), ss[bad], has2, flags2[i] == '1'))
+			} else {
+				r.OracleFail("artifact-remains-after-removal", in3, fmt.Sprintf("stream %d of %d: %q", bad+1, len(ss), ss[bad]))
+			}
+			continue
+		}
+		o, n := joinStreams(p.Streams), joinStreams(ss)
+		switch {
+		case !equivalentN(o, n):
+			r.OracleFail("content-not-restored", in3, fmt.Sprintf("%q -> %q", o, n))
+		case p.OwnRes && (!sameSet(p.GS, obsR[i].GS) || !sameSet(p.XO, obsR[i].XO)):
+			r.OracleFail("resources-not-restored", in3, fmt.Sprintf("gs %v -> %v, xobjects %v -> %v", p.GS, obsR[i].GS, p.XO, obsR[i].XO))
+		default:
+			r.OracleOK()
+		}
+	}
+	if has2 && !left {
+		r.OracleFail("watermark-detected-after-removal", in, flags2)
+	} else if !left {
+		r.OracleOK()
+	}
+}
+
+func seqFlows(r *vh.Run) {
+	// every on-top/background order of length 2 and 3, on pages with no content, one stream,
+	// and arrays of 1, 2 and 3 streams
+	var patterns [][]bool
+	for n := 2; n <= 3; n++ {
+		for m := 0; m < 1<<n; m++ {
+			p := make([]bool, n)
+			for i := range p {
+				p[i] = m>>i&1 == 1
+			}
+			patterns = append(patterns, p)
+		}
+	}
+	rounds := r.Pick(1, 6)
+	for round := 0; round < rounds; round++ {
+		for _, pat := range patterns {
+			var spec docSpec
+			spec.Pages = append(spec.Pages, pageSpec{Kind: 1, Streams: [][]byte{genContent(r.Rand, 6)}, Flate: r.Rand.Intn(2) == 0})
+			for n := 1; n <= 3; n++ {
+				var ss [][]byte
+				for j := 0; j < n; j++ {
+					ss = append(ss, genContent(r.Rand, 4))
+				}
+				spec.Pages = append(spec.Pages, pageSpec{Kind: 2, Streams: ss, Flate: r.Rand.Intn(2) == 0})
+			}
+			if r.Rand.Intn(2) == 0 {
+				spec.Pages = append(spec.Pages, pageSpec{Kind: 0})
+			}
+			ks := make([]string, len(pat))
+			for i := range ks {
+				ks[i] = kinds[r.Rand.Intn(len(kinds))]
+			}
+			seqFlow(r, spec, pat, ks)
+		}
+	}
 }
